@@ -111,10 +111,10 @@ func init() {
 		return RunConfig(a[0], a[1], a[2])
 	}
 	Modes["cfgstart"] = func(a []string) error {
-		if len(a) != 2 {
-			return fmt.Errorf("cfgstart <config.yaml> <supi>")
+		if len(a) != 3 {
+			return fmt.Errorf("cfgstart <config.yaml> <supi> <tls key log path or empty>")
 		}
-		return CfgStart(a[0], a[1])
+		return CfgStart(a[0], a[1], a[2])
 	}
 	Modes["link"] = func(a []string) error {
 		if len(a) != 3 {
